@@ -49,6 +49,20 @@ struct proj_rtti : dyn_rtti {
 // ids that differ only above bit 31 (e.g. (module << 32) | serial): the inherited identity type_index
 struct wide_rtti : dyn_rtti {};
 
+// small integer ids starting at 0 (class c has id c - 1): an id of 0 is a perfectly good id for a custom rtti
+struct small_rtti : dyn_rtti {
+    template<typename T>
+    static type_id static_type() {
+        if constexpr (node_index<T>::value >= 0) {
+            return g_node_static_id[node_index<T>::value];
+        } else if constexpr (std::is_same_v<T, Obj>) {
+            return 0xFFFF; // never the id of a registered class (ids are < 64)
+        } else {
+            return reinterpret_cast<type_id>(&typeid(T));
+        }
+    }
+};
+
 // deferred ids: catalogs hold pointers to functions returning the id
 extern type_id g_deferred_id[64];
 template<int K>
@@ -103,6 +117,8 @@ struct prj : basic_policy<prj, proj_rtti, fast_perfect_hash<prj>, vptr_vector<pr
 struct prjmap : basic_policy<prjmap, proj_rtti, vptr_map<prjmap>, vectored_error<prjmap>> {};
 struct wide : basic_policy<wide, wide_rtti, fast_perfect_hash<wide>, vptr_vector<wide>, vectored_error<wide>> {};
 struct widemap : basic_policy<widemap, wide_rtti, vptr_map<widemap>, vectored_error<widemap>> {};
+struct small : basic_policy<small, small_rtti, fast_perfect_hash<small>, vptr_vector<small>, vectored_error<small>> {};
+struct smallchk : basic_policy<smallchk, small_rtti, checked_perfect_hash<smallchk>, vptr_vector<smallchk>, basic_error_output<smallchk>, vectored_error<smallchk>> {};
 struct dfr : basic_policy<dfr, def_rtti, vptr_vector<dfr>, vectored_error<dfr>> {};
 struct dfrh : basic_policy<dfrh, def_rtti, fast_perfect_hash<dfrh>, vptr_vector<dfrh>, vectored_error<dfrh>> {};
 // derived from the stock policies the way users do it
